@@ -37,7 +37,7 @@ def sides(law, p, q, i1, i2):
 
 class C18(Prop):
     id = 'C18'
-    rule_added = '30% of the discrete online cases on objects that served another trace and were reset(). Bounded-future laws also through pastify()+update() under sampling periods {1 s, 500 ms, 250 ms, 2 s, 4 s}.'
+    rule_added = '8% of the discrete offline/online cases on Boolean-valued signals (every sample a Python bool, operands often the bare signals). 30% of the discrete online cases on objects that served another trace and were reset(). Bounded-future laws also through pastify()+update() under sampling periods {1 s, 500 ms, 250 ms, 2 s, 4 s}.'
     rule = ('for each of the 8 stated laws, operands p,q are random formulas (depth<=3), bounds random, traces '
             '1..30 samples; both sides are evaluated by the same real monitor kind (discrete offline: all laws; '
             'discrete online: the past laws; dense offline: all but the s_prev/s_next expansions) and compared at '
@@ -207,6 +207,15 @@ class C18(Prop):
         names = sorted(set(lang.variables(p) + lang.variables(q))) or ['x']
         case = {'law': law, 'kind': kind, 'p': lang.to_jsonable(p), 'q': lang.to_jsonable(q), 'i1': list(i1),
                 'i2': list(i2), 'data': lang.gen_trace(rng, names, n)}
+        if kind in ('dt_offline', 'dt_online') and rng.random() < 0.08:
+            # Boolean-valued signals: every sample is a Python bool (True/False), the operands of the law are often
+            # the bare signals themselves
+            if rng.random() < 0.6:
+                p = lang.V(names[0]) if rng.random() < 0.7 else p
+                q = lang.V(names[-1]) if rng.random() < 0.7 else q
+                names = sorted(set(lang.variables(p) + lang.variables(q))) or ['x']
+            case.update({'p': lang.to_jsonable(p), 'q': lang.to_jsonable(q), 'booleans': True,
+                         'data': dict((k, [float(rng.random() < 0.5) for _ in range(n)]) for k in names)})
         if kind == 'dt_pastified':
             # bounded-future laws through pastify() + update(), under a sampling period that need not be 1 s
             case['period'] = rng.choice([[1, 's'], [500, 'ms'], [2, 's'], [250, 'ms'], [4, 's']])
@@ -232,10 +241,11 @@ class C18(Prop):
 
     def run_side(self, kind, f, names, data, n, prelude=None):
         text = lang.to_text(f)
+        sdb = {'typed': [True, False]} if self._booleans else None
         if kind == 'dt_offline':
-            return drive.values(drive.dt_offline(text, names, data, n))
+            return drive.values(drive.dt_offline(text, names, data, n, sd=sdb))
         if kind == 'dt_online':
-            return drive.dt_online(text, names, data, n, prelude=prelude)
+            return drive.dt_online(text, names, data, n, prelude=prelude, sd=sdb)
         if kind == 'dt_pastified':
             import random
             from fractions import Fraction as Fr
@@ -269,6 +279,9 @@ class C18(Prop):
         rel = max(rel_for(lhs), rel_for(rhs))
         v.info['law:%s/%s' % (case['law'], kind)] = 1
         self._period = case.get('period')
+        self._booleans = bool(case.get('booleans'))
+        if self._booleans:
+            v.info['class:boolean-valued-signals'] = 1
         if self._period:
             v.info['period:%s%s' % tuple(self._period)] = 1
         try:
